@@ -116,6 +116,12 @@ func spell(base, how string) (registered, requested string) {
 		return base, base + ":latest"
 	case "latest-dropped":
 		return base + ":latest", base
+	case "listed-mixed": // the backend lists a mixed-case name (Qwen/Qwen3-8B style); the client sends it as listed
+		m := "Org/" + strings.ToUpper(base[:1]) + base[1:] + "-8B"
+		return m, m
+	case "listed-mixed-lower": // ... or in lower case
+		m := "Org/" + strings.ToUpper(base[:1]) + base[1:] + "-8B"
+		return m, strings.ToLower(m)
 	}
 	return base, base
 }
@@ -362,7 +368,7 @@ func genCase(t *rapid.T) Case {
 		N:        n,
 		H:        rapid.IntRange(0, (1<<n)-1).Draw(t, "H"),
 		L:        rapid.IntRange(0, (1<<n)-1).Draw(t, "L"),
-		Spelling: rapid.SampledFrom([]string{"exact", "exact", "exact", "upper", "mixed", "latest-added", "latest-dropped"}).Draw(t, "spelling"),
+		Spelling: rapid.SampledFrom([]string{"exact", "exact", "exact", "upper", "mixed", "latest-added", "latest-dropped", "listed-mixed", "listed-mixed", "listed-mixed-lower"}).Draw(t, "spelling"),
 		Route:    rapid.SampledFrom([]string{"proxy", "proxy", "provider", "anthropic"}).Draw(t, "route"),
 	}
 	c.BigBody = rapid.IntRange(0, 9).Draw(t, "big") == 0
@@ -395,7 +401,7 @@ func enumerate() {
 
 func TestC09(t *testing.T) {
 	defer stopRigs()
-	rec.SetRule("one production stack per (engine, strategy, fallback, refresh-on-miss); the table strategy x fallback x healthy-subset(4) x listing-subset(4) is enumerated completely with the exact spelling on the proxy route; rapid adds endpoint counts 1..4, model spellings (case, :latest), the provider and Anthropic routes, request bodies above 1 MiB and bodies sent chunked (no Content-Length), and a discovery history in which an endpoint listed the model earlier and then dropped it (the new listing registered once, or twice back to back). The serving backend, client status and X-Olla-Routing-Decision header are judged. non-trivial = healthy set and listing set differ and both non-empty; distinct by full case")
+	rec.SetRule("one production stack per (engine, strategy, fallback, refresh-on-miss); the table strategy x fallback x healthy-subset(4) x listing-subset(4) is enumerated completely with the exact spelling on the proxy route; rapid adds endpoint counts 1..4, model spellings (case, :latest, names listed in mixed case with a slash), the provider and Anthropic routes, request bodies above 1 MiB and bodies sent chunked (no Content-Length), and a discovery history in which an endpoint listed the model earlier and then dropped it (the new listing registered once, or twice back to back). The serving backend, client status and X-Olla-Routing-Decision header are judged. non-trivial = healthy set and listing set differ and both non-empty; distinct by full case")
 	rec.Assume("safety direction is asserted for every spelling against the case's listing relation; the service direction (served / 404 / 503 / fallback to the healthy set) only for the exact lower-case spelling")
 	rec.Assume("discovery strategy with fallback 'all' and refresh-on-miss off: documentation is silent, either service by a healthy endpoint or an honest 404/503 rejection is accepted")
 	if ev.Replay(t, rec, "table", runCase) {
